@@ -772,6 +772,11 @@ def exec_cli(w, repo):
         res.append(("-execdir + per directory: %r" % calls, ok))
         rc, out, calls = go(["-exec", rec, "{}", "+", "-quit"])
         res.append(("-exec + then -quit still runs the pending invocation: %r" % calls, len(calls) == 1 and calls[0].endswith("<r>")))
+        # two starting points, one batch action: every path once (nothing of the first starting point is delivered again with the second)
+        open(log, "w").close()
+        rc, out, err = run([find_bin(repo), "r/d", "r/d", "-exec", rec, "fixed", "{}", "+"], cwd=d, env=dict(os.environ, REC_LOG=log, REC_RC="0"))
+        calls = [l.split("|", 1)[1] for l in open(log, errors="surrogateescape").read().splitlines()]
+        res.append(("find r/d r/d -exec + delivers each visited path once: %r" % calls, "".join(c.replace("<fixed>", "") for c in calls) == "<r/d><r/d/-n><r/d><r/d/-n>"))
     return _battery(res)
 
 
@@ -1102,3 +1107,46 @@ def wiring_cli(w, repo):
         rc, calls, err = _xargs(repo, d, ["-0"], b"a'b\0c")
         res.append(("-0 takes quotes literally: %r rc=%d" % (calls, rc), rc == 0 and calls == [["a'b", "c"]]))
     return _battery(res)
+
+
+def regex_cli(w, repo):
+    """exact: a file at the witness's path, `find START tokens...`; selected / not selected / rejected is compared with the C17 reference"""
+    import sys
+    mdir = os.path.join(os.path.dirname(os.path.dirname(os.path.abspath(__file__))), "mirsym")
+    if mdir not in sys.path:
+        sys.path.insert(0, mdir)
+    import regex_ref
+    if not build(repo):
+        return None, "build failed"
+    toks, subj = w.get("tokens"), w.get("subject")
+    if not toks or not subj:
+        return None, "witness without tokens / path"
+    start, name = subj.rsplit("/", 1)
+    want = regex_ref.reference(list(toks), subj)
+    with Sandbox() as d:
+        os.makedirs(os.path.join(d, start), exist_ok=True)
+        open(os.path.join(d, start, name), "w").close()
+        rc, out, err = run([find_bin(repo), start] + list(toks), cwd=d)
+        lines = out.decode(errors="replace").split("\n")
+        if rc not in (0, 1):
+            return True, "find %s %s: rc=%d (%s)" % (start, " ".join(toks), rc, err.decode(errors="replace").strip()[:120])
+        got = ("reject", "") if (rc != 0 and not out) else ("accept", subj in lines)
+        detail = "find %s %s: rc=%d, %r %s; reference: %s" % (start, " ".join(toks), rc, subj, "rejected" if got[0] == "reject" else ("selected" if got[1] else "not selected"),
+                                                             "rejected (%s)" % want[1] if want[0] == "reject" else ("selected" if want[1] else "not selected"))
+        return (got[0] != want[0] or (got[0] == "accept" and got[1] != want[1])), detail
+
+
+def clock_cli(w, repo):
+    """scenario: the reference instant of the time tests is the start of find, not the first evaluation of a time test.
+    A file is 57 s old when find starts; the first starting point costs 4 s (-exec sleep); -mmin -1 (age < 1 minute) must still select it."""
+    if not build(repo):
+        return None, "build failed"
+    with Sandbox() as d:
+        os.mkdir(os.path.join(d, "slow"))
+        f = os.path.join(d, "f")
+        open(f, "w").close()
+        t = time.time() - 57
+        os.utime(f, (t, t))
+        rc, out, err = run([find_bin(repo), "slow", "f", "(", "-name", "slow", "-exec", "sleep", "4", ";", ")", "-o", "-name", "f", "-mmin", "-1", "-print"], cwd=d)
+        got = out.decode(errors="replace").split()
+        return _battery([("a file 57 s old at start, first time test evaluated 4 s later: -mmin -1 selected %r (rc=%d)" % (got, rc), got == ["f"])])
